@@ -351,10 +351,44 @@ def bystanders(ck, rng, stats):
                 return
 
 
+def formula_stage(ck, rng, stats):
+    """negation, and / or and parentheses over matchers that take interpolated arguments (isdirectory, command): the formula
+    decides as its boolean reading says, and a matcher below a negation sees the matches of its rule like any other"""
+    helper = common.rec_helper()
+    cases = [
+        # (condition, does the rule select the message?)
+        ('header "To" /user\\+(.+)@/ and ! isdirectory "%(root)s/\\1"', True),          # the folder named by the capture does not exist
+        ('header "To" /user\\+(.+)@/ and isdirectory "%(root)s/\\1"', False),
+        ('header "To" /(user)\\+/ and ! isdirectory "%(root)s/\\1dir"', False),         # .../userdir exists
+        ('header "To" /(user)\\+/ and isdirectory "%(root)s/\\1dir"', True),
+        ('header "To" /user\\+(.+)@/ and ! command { "%(helper)s" "exit=1" "\\1" }', True),
+        ('header "To" /user\\+(.+)@/ and ! command { "%(helper)s" "exit=0" "\\1" }', False),
+        ('! ( header "To" /nobody/ or isdirectory "%(root)s/nowhere" ) and header "To" /(user)/', True),
+        ('! header "To" /nobody/ and ( header "Subject" /zzz/ or ! isdirectory "%(root)s/userdir" or header "To" /(us)er/ )', True),
+    ]
+    for cond, want in cases:
+        sb = mdrun.Sandbox()
+        src = sb.maildir('src'); mdA = sb.maildir('mdA')
+        os.makedirs(os.path.join(sb.root, 'userdir'))
+        hout = os.path.join(sb.root, 'helper-out'); os.makedirs(hout)
+        sb.add(src, 'new', b'To: user+folder@example.org\nSubject: formula\n\nbody\n')
+        conf = sb.write_conf(('maildir "%s" {\n\tmatch %s move "%s"\n}\n' % (src, cond % {'root': sb.root, 'helper': helper}, mdA)).encode())
+        rc, out, err = sb.run([], conf=conf, env={'VERIF_HELPER_OUT': hout})
+        stats['runs'] += 1; stats['formula_cases'] = stats.get('formula_cases', 0) + 1
+        moved = len(sb.snapshot(mdA)) == 1
+        if rc != 0 or moved != want:
+            stats['viol'] += 1
+            ck.violation('condition %r on "To: user+folder@example.org": the message was %s, exit %d (%r); the formula says it %s'
+                         % (cond, 'moved' if moved else 'not moved', rc, err[-150:], 'is selected' if want else 'is not selected'),
+                         {'stage': 'formula', 'condition': cond, 'exit': rc, 'stderr': err[-300:].decode(errors='replace')})
+        sb.cleanup()
+
+
 def run(ck):
     rng = ck.rng
     stats = dict(runs=0, evals=0, dis=0, viol=0, clean=0, T1=0, T2=0, T3=0, nontrivial=set())
     bystanders(ck, rng, stats)
+    formula_stage(ck, rng, stats)
     samples = []
     small = list(small_trees())
     if ck.tier == 'quick':
@@ -374,12 +408,12 @@ def run(ck):
         'distinct_nontrivial': len(stats['nontrivial']),
         'rule': 'rule trees: a bounded-exhaustive family (<= 3 rules per block, depth <= 1, 6 conditions x 6 action lists, sub-sampled in the quick tier) and random '
                 'trees (depth <= 3, <= 4 rules per block, and/or/!/parentheses/unparenthesised chains, pass/break as last action), each on all 8 truth assignments '
-                'of 3 matchers; plus 12 runs over a maildir holding non-message files (symbolic links to a matching message file / dangling / to a directory, a sub-directory, a FIFO) with file types reported and not reported by readdir; non-trivial = the model or the documented semantics select at least one action; distinct = distinct (tree, assignment)',
+                'of 3 matchers; plus 12 runs over a maildir holding non-message files (symbolic links to a matching message file / dangling / to a directory, a sub-directory, a FIFO) with file types reported and not reported by readdir; 8 formulas with negated / parenthesised isdirectory and command matchers taking back-references; non-trivial = the model or the documented semantics select at least one action; distinct = distinct (tree, assignment)',
         'samples': samples,
         'traces_validated_against_impl': stats['evals'],
         'disagreements_checked': stats['dis'],
         'clean_evaluations': stats['clean'], 'T1': stats['T1'], 'T2': stats['T2'], 'T3': stats['T3'],
-        'bystander_runs': stats.get('bystander_runs', 0),
+        'bystander_runs': stats.get('bystander_runs', 0), 'formula_cases': stats.get('formula_cases', 0),
     })
     ck.assumptions += ['matchers are header patterns over X-A<i> headers (atoms that record a match); plain matchers and attachment conditions are covered by C11/C13 checks',
                        'messages sit in src/cur so that a message flagged into another subdirectory is not walked twice (finding F-20)']
